@@ -2,6 +2,8 @@
 import itertools
 import resource
 
+import pathlib
+
 import vf
 vf.use_repo()
 from ak import llparser  # noqa: E402
@@ -389,12 +391,23 @@ def run_case(ctx, mon, cfg_id, terms, prods, start, kind, inputs_spec=None, rng=
                 src = iter([])          # ... also one that yields no line at all
             elif not toks and form == 2:
                 src = []
+            kw = {}
+            if len(toks) % 3:
+                # the input is named for the diagnostics: by a string or by the path object of the file it came from
+                kw["src_name"] = "in/put.txt" if len(toks) % 3 == 1 else pathlib.PurePosixPath("in/put.txt")
+            if len(text) % 6 == 4 and form < 2:
+                # a character no token starts with, somewhere in the text: that is a lexical error
+                cut = len(text) // 2
+                src = text[:cut] + "\x01" + text[cut:]
+                ctx.count("texts_with_a_character_no_token_matches")
             try:
                 # (every fifth parse with the parser's own trace switched on: the messages go nowhere)
-                parser.parse(src, do_cleanup=False, debug=(len(text) % 5 == 1))
+                parser.parse(src, do_cleanup=False, debug=(len(text) % 5 == 1), **kw)
                 ctx.count("parses_returned_tree")
             except llparser.ParsingError:
                 ctx.count("parses_raised_parsing_error")
+            except llparser.LexicalError:
+                ctx.count("parses_raised_lexical_error")
             except llmon.StackBoundExceeded as err:
                 ctx.violation("parse-stack-grows-without-bound",
                               {"smart": smart, "stack_len": int(str(err)), "bound": mon.stack_bound,
